@@ -220,7 +220,7 @@ def cases_poses(seed, tier):
                         out.append({"rel": "ikpath", "a": a, "b": b, "steps": s})
             for k in range(n):
                 c = P[k]
-                for form in ("tm", "vec3", "vec2"):
+                for form in ("tm", "vec3", "vec2", "mixed"):
                     out.append({"rel": "metric", "a": a, "b": b, "c": c, "form": form})
                 if len({i, j, k}) == 3:
                     for form in ("tm", "vec3"):
@@ -491,6 +491,9 @@ def _pts(c, keys, form):
         return [mk(c[k]) for k in keys]
     if form == "vec3":
         return [np.array(c[k][:3], float) for k in keys]
+    if form == "mixed":         # a transform, a plain list of three numbers, a flat 6-array - in one call
+        kinds = (lambda k: mk(c[k]), lambda k: [float(x) for x in c[k][:3]], lambda k: np.array(c[k], float))
+        return [kinds[i % 3](k) for i, k in enumerate(keys)]
     return [np.array(c[k][:2], float) for k in keys]
 
 
